@@ -65,6 +65,9 @@ func (in *Interp) chanSend(g *Goroutine, fr *Frame, ch *ChanV, v Value) {
 	w := in.waitOf(g)
 	if w.send != nil {
 		if w.send.done {
+			if in.raceActive(g) {
+				g.vc.join(w.send.ack)
+			}
 			w.send = nil
 			return
 		}
@@ -75,10 +78,11 @@ func (in *Interp) chanSend(g *Goroutine, fr *Frame, ch *ChanV, v Value) {
 		in.goPanic("send on closed channel")
 	}
 	if len(ch.buf) < ch.cap || (ch.cap == 0 && len(ch.buf) == 0 && len(ch.sendq) == 0 && in.hasReceiver(ch, g)) {
+		ch.bufVC = append(ch.bufVC, in.raceSend(g, ch))
 		ch.buf = append(ch.buf, v)
 		return
 	}
-	sw := &sendWait{g: g, val: v}
+	sw := &sendWait{g: g, val: v, vc: in.raceSend(g, ch)}
 	ch.sendq = append(ch.sendq, sw)
 	w.send = sw
 	in.block(g, fr, "chan send", func() bool { return sw.done || ch.closed })
@@ -86,13 +90,24 @@ func (in *Interp) chanSend(g *Goroutine, fr *Frame, ch *ChanV, v Value) {
 
 // chanTryRecv takes a value if one is available.
 func (in *Interp) chanTryRecv(ch *ChanV) (Value, bool, bool) {
+	in.race.lastRecv, in.race.lastOK = nil, false
+	g := in.cur
 	if len(ch.buf) > 0 {
 		v := ch.buf[0]
 		ch.buf = ch.buf[1:]
+		if len(ch.bufVC) > 0 {
+			in.race.lastRecv = ch.bufVC[0]
+			ch.bufVC = ch.bufVC[1:]
+		}
+		in.race.lastOK = true
 		if len(ch.sendq) > 0 && len(ch.buf) < ch.cap {
 			sw := ch.sendq[0]
 			ch.sendq = ch.sendq[1:]
 			ch.buf = append(ch.buf, sw.val)
+			ch.bufVC = append(ch.bufVC, sw.vc)
+			if in.raceActive(g) {
+				sw.ack = g.vc.clone()
+			}
 			sw.done = true
 		}
 		return v, true, true
@@ -100,6 +115,10 @@ func (in *Interp) chanTryRecv(ch *ChanV) (Value, bool, bool) {
 	if len(ch.sendq) > 0 {
 		sw := ch.sendq[0]
 		ch.sendq = ch.sendq[1:]
+		in.race.lastRecv, in.race.lastOK = sw.vc, true
+		if in.raceActive(g) {
+			sw.ack = g.vc.clone()
+		}
 		sw.done = true
 		return sw.val, true, true
 	}
@@ -123,6 +142,7 @@ func (in *Interp) chanRecv(g *Goroutine, fr *Frame, x *ssa.UnOp, ch *ChanV, comm
 		return
 	}
 	w.recvOn = nil
+	in.raceRecvDone(g, ch, in.race.lastRecv, !in.race.lastOK)
 	if commaOk {
 		in.set(fr, x, TupleV{v, in.tt.Bool(ok)})
 	} else {
@@ -223,11 +243,13 @@ func (in *Interp) doSelect(g *Goroutine, fr *Frame, x *ssa.Select) {
 		if ch.closed {
 			in.goPanic("send on closed channel")
 		}
+		ch.bufVC = append(ch.bufVC, in.raceSend(g, ch))
 		ch.buf = append(ch.buf, in.get(fr, st.Send))
 		in.set(fr, x, mk(pick, false, -1, nil))
 		return
 	}
 	v, ok, _ := in.chanTryRecv(ch)
+	in.raceRecvDone(g, ch, in.race.lastRecv, !in.race.lastOK)
 	in.set(fr, x, mk(pick, ok, pick, v))
 }
 
